@@ -332,9 +332,9 @@ class Universe:
                 out = max(out, r)
             # constant-length tuples: "not supported yet" in the code, nothing in the docs -> unspec at most
             if sf == "tuplef" and df == "tuplef" and len(s[2]) == len(d[2]):
-                out = max(out, min(UNSPEC, min(self.rel(a, b) for a, b in zip(s[2], d[2]))))
+                out = max(out, min(UNSPEC, min((self.rel(a, b) for a, b in zip(s[2], d[2])), default=YES)))
             if sf == "tuplef" and df == "iter":
-                out = max(out, min(UNSPEC, min(self.rel(a, d[2][0]) for a in s[2])))
+                out = max(out, min(UNSPEC, min((self.rel(a, d[2][0]) for a in s[2]), default=YES)))
             # "source and destination types are dict"
             if sf == "dict" and df == "dict":
                 r = min(self.rel(s[2][0], d[2][0]), self.rel(s[2][1], d[2][1]))
@@ -668,7 +668,7 @@ def well_formed(spec) -> bool:  # noqa: C901, PLR0911, PLR0912
         if ORIGINS[spec[1]][3] == "dict" and not (hashable_spec(spec[2][0]) or spec[2][0] == ANY):
             return False
         if spec[1] == "tuplef" and not spec[2]:
-            return False
+            return True  # Tuple[()]
         if spec[1] == "type" and (spec[2][0][0] != "sc" or spec[2][0] == NONE):
             return False
         return all(well_formed(a) for a in spec[2])
@@ -1286,7 +1286,7 @@ def _pool():
         lit(1), lit(1, 2), lit("a"), opt(lit(2)),
         # concrete iterables
         list_int, g("list", INT, sp="b"), list_str, g("list", BOOL), bare("list", "b"), g("list", ANY),
-        g("tuple", INT), g("tuplef", INT, STR), g("set", INT), g("frozenset", INT), g("deque", INT),
+        g("tuple", INT), g("tuplef", INT, STR), g("tuplef"), g("set", INT), g("frozenset", INT), g("deque", INT),
         g("list", list_int), g("list", opt(INT)), g("list", un(INT, STR)),
         # abstract collections
         g("Sequence", INT), g("Sequence", STR), bare("Sequence"), g("Iterable", INT), g("AbstractSet", INT),
@@ -1404,7 +1404,7 @@ def st_spec(draw, depth_left, hashable=False, avoid_known=False):  # noqa: C901,
         return g(draw(st.sampled_from(DICT_ORIGINS)), draw(st_leaf(True)),
                  draw(st_spec(sub, avoid_known=avoid_known)), sp=sp)
     if choice == "tuplef":
-        n = draw(st.integers(1, 3))
+        n = draw(st.integers(0, 3))
         return g("tuplef", *[draw(st_spec(sub, hashable=hashable, avoid_known=avoid_known)) for _ in range(n)], sp=sp)
     if choice == "bare":
         pool = ["list", "dict", "tuple", "set", "frozenset", "deque", "type",
@@ -1550,7 +1550,7 @@ def _edit_here(draw, spec):  # noqa: C901, PLR0911, PLR0912, PLR0915
         if fam == "dict":
             return g(draw(st.sampled_from(DICT_ORIGINS)), *spec[2], sp=spec[3])
         if fam == "tuplef":
-            return g(draw(st.sampled_from(["list", "tuple", "Sequence"])), spec[2][0], sp=spec[3])
+            return g(draw(st.sampled_from(["list", "tuple", "Sequence"])), spec[2][0] if spec[2] else INT, sp=spec[3])
         return spec
     if op == "to_bare":
         return bare("tuple" if spec[1] == "tuplef" else spec[1], spec[3])
@@ -1566,9 +1566,9 @@ def _edit_here(draw, spec):  # noqa: C901, PLR0911, PLR0912, PLR0915
             return ["g", spec[1], [new], spec[3]]
         return spec
     if op == "tuple_drop":
-        return g("tuplef", *spec[2][:-1], sp=spec[3]) if len(spec[2]) > 1 else spec
+        return g("tuplef", *spec[2][:-1], sp=spec[3]) if spec[2] else spec
     if op == "tuple_var":
-        return g("tuple", spec[2][0], sp=spec[3])
+        return g("tuple", spec[2][0] if spec[2] else INT, sp=spec[3])
     if op == "bare_param":
         arity = ORIGINS[spec[1]][2]
         arg = draw(st.sampled_from([ANY, INT]))
